@@ -24,6 +24,7 @@ type keyEntry struct {
 	cheap string // observables at construction
 	full  string
 	born  int
+	first []string // what the very first call on the object returned ("name=value")
 }
 
 // bufEntry is a caller-owned byte slice that was supplied to a constructor
@@ -236,6 +237,18 @@ func (w *World) addKey(k *keyEntry) int {
 	}
 	k.cheap = w.observe(idx, k, false, "construction")
 	k.full = w.observe(idx, k, true, "construction")
+	// what the object answered to its very first call must be what it
+	// answers now: which accessor a caller happens to use first is not
+	// supposed to matter
+	parts := strings.Split(k.full, " ")
+	for _, f := range k.first {
+		name := f[:strings.IndexByte(f, '=')+1]
+		for _, p := range parts {
+			if strings.HasPrefix(p, name) && p != f {
+				w.r.Violate("C18", "first-call-differs", k.kind+":"+strings.TrimSuffix(name, "="), w.step, "key %d (%s): the first call ever made on the object returned %s, the same accessor now returns %s", idx, k.how, f, p)
+			}
+		}
+	}
 	w.r.Probe("keys_built_" + k.kind)
 	return idx
 }
@@ -638,6 +651,7 @@ func (w *World) opKeyConstruct() {
 		// validKey (inside addKey) reports the invalid object that escaped
 		w.r.Probe("constructor_accepted_input_that_must_fail")
 	}
+	w.firstTouch(c)
 	w.checkSchnorrDerivation(c)
 	idx := w.addKey(c.k)
 	if c.supplied != nil {
@@ -659,6 +673,89 @@ func (w *World) opKeyConstruct() {
 			}
 		})
 		w.r.Hist("%d   ... %d other %s keys parsed (panic=%v)", w.step, c.burstAfter, c.burstKind, po.panicked)
+	}
+}
+
+// firstTouch makes the first call on a new key object one that the standard
+// observation makes late or not at all (lazily derived fields, deferred
+// normalisation: what the first call sees must already be the final value).
+func (w *World) firstTouch(c *consOut) {
+	k := c.k
+	rec := func(name string, b []byte) { k.first = append(k.first, name+"="+hx(b)) }
+	name := c.desc[:strings.IndexByte(c.desc, '(')]
+	what := w.t.Choose("ops", "kc.first", 5)
+	if what == 0 {
+		return
+	}
+	w.r.Fault("unusual_first_call_on_new_key")
+	po := protect(func() {
+		switch k.kind {
+		case "priv":
+			switch what {
+			case 1:
+				pk, ok := k.priv.Public().(*secec.PublicKey)
+				if !ok || pk == nil {
+					w.r.Violate("C18", "nil-without-error", "PrivateKey.Public", w.step, "%s: Public(), called first on the new key, returned %v (a nil or foreign public key)", c.desc, k.priv.Public())
+					return
+				}
+				rec("Pub", pk.Bytes())
+			case 2:
+				sig, err := k.priv.Sign(secec.RFC6979SHA256(), fixedDigest, nil)
+				k.first = append(k.first, fmt.Sprintf("Sig=%x/%v", sig, err != nil))
+			case 3:
+				ss, err := k.priv.ECDH(fixedPeer)
+				k.first = append(k.first, fmt.Sprintf("ECDH=%x/%v", ss, err != nil))
+			case 4:
+				rec("PubPt", k.priv.PublicKey().Point().UncompressedBytes())
+			}
+		case "pub":
+			switch what {
+			case 1:
+				rec("Pt", k.pub.Point().UncompressedBytes())
+			case 2:
+				rec("ASN1", k.pub.ASN1Bytes())
+			case 3:
+				k.first = append(k.first, fmt.Sprintf("VerifyRaw=%v", k.pub.VerifyRaw(fixedDigest, fixedSigR, fixedSigS)))
+			case 4:
+				rec("Compressed", k.pub.CompressedBytes())
+			}
+		case "spriv":
+			switch what {
+			case 1, 2:
+				sig, err := k.spriv.Sign(zeroAux(), fixedMsg, nil)
+				k.first = append(k.first, fmt.Sprintf("Sig=%x/%v", sig, err != nil))
+			case 3:
+				if pk, ok := k.spriv.Public().(*bitcoin.SchnorrPublicKey); ok && pk != nil {
+					rec("Pub", pk.Bytes())
+				} else {
+					w.r.Violate("C18", "nil-without-error", "SchnorrPrivateKey.Public", w.step, "%s: Public(), called first on the new key, returned a nil or foreign public key", c.desc)
+				}
+			case 4:
+				rec("PubPt", k.spriv.PublicKey().Point().UncompressedBytes())
+			}
+		case "spub":
+			switch what {
+			case 1, 2:
+				pt := k.spub.Point()
+				rec("Pt", pt.UncompressedBytes())
+				if c.modelPt != nil {
+					even := *c.modelPt
+					if even.IsYOdd() {
+						even = even.Neg()
+					}
+					if got := pt.UncompressedBytes(); !bytes.Equal(got, even.Uncompressed()) {
+						w.r.Violate("C14", "schnorr-key-point", name, w.step, "%s: Point(), called first on the new key, is %x; the even-y point with the source's x is %x", c.desc, got, even.Uncompressed())
+					}
+				}
+			case 3:
+				k.first = append(k.first, fmt.Sprintf("Verify=%v", k.spub.Verify(fixedMsg, fixedSchnorrSig)))
+			case 4:
+				k.first = append(k.first, fmt.Sprintf("Equal=%v", k.spub.Equal(k.spub)))
+			}
+		}
+	})
+	if po.panicked {
+		w.r.Violate("C18", "first-call-panics", k.kind+":"+fmt.Sprint(what), w.step, "%s: the first call made on the new key object panicked: %s", c.desc, po.msg)
 	}
 }
 
